@@ -1282,9 +1282,16 @@ def r_stalevar(db, rep):
                     selfref = any(w["k"] == "UnaryOperator" or w.get("op") not in (None, "=") or
                                   any(x["k"] == "DeclRefExpr" and x.get("dk") == "local" and x.get("d") == v for x in walk(w.get("rhs") or {"k": "none"}))
                                   for w in ws)
+                    # a per-step value is assigned by every step of the inner loop: some definition is a statement of the loop body
+                    # itself; one that is only assigned under a condition inside the loop is a mode that persists on purpose
+                    ibody = I.get("body") or {}
+                    top_stmts = ibody.get("c", []) if ibody.get("k") == "CompoundStmt" else [ibody]
+                    every_step = any(any(x is w for x in walk(st)) and st["k"] not in ("IfStmt", "SwitchStmt", "ForStmt", "WhileStmt", "DoStmt")
+                                     for w in ws for st in top_stmts)
                     rep.inst(f.nloc(I), "%s: local#%s is set only in the inner loop at line %s and read after it (%s)" % (
-                        f.qn, v, I.get("l"), "carried on purpose: its definitions read it" if selfref else "per-item value"))
-                    if selfref:
+                        f.qn, v, I.get("l"), "carried on purpose: its definitions read it" if selfref else
+                        "a mode set under a condition: persists on purpose" if not every_step else "per-item value"))
+                    if selfref or not every_step:
                         continue
                     cfg = f.cfg
                     # start of an iteration of L: the position of the first statement of its body
